@@ -204,6 +204,32 @@ impl Decl {
 }
 
 impl Ty {
+    /// does any node of the type expression (through declarations, cut at recursion) satisfy `p`
+    pub fn any(&self, p: &dyn Fn(&Ty) -> bool) -> bool {
+        fn go(t: &Ty, p: &dyn Fn(&Ty) -> bool, seen: &mut Vec<String>) -> bool {
+            use Ty::*;
+            if p(t) {
+                return true;
+            }
+            match t {
+                Option(a) | Vec(a) | Array(a, _) | LinkedList(a) | HashSet(a) | BTreeSet(a) | Box(a) | Rc(a) | Arc(a) | Slice(a) | Ref(a) | RcSlice(a) => go(a, p, seen),
+                Result(a, b) | HashMap(a, b) | BTreeMap(a, b) => go(a, p, seen) || go(b, p, seen),
+                Tuple(ts) => ts.iter().any(|t| go(t, p, seen)),
+                Adt(d) => {
+                    if seen.contains(&d.name) {
+                        return false;
+                    }
+                    seen.push(d.name.clone());
+                    match &d.body {
+                        DeclBody::Struct(r) => r.fields.iter().any(|f| go(&f.ty, p, seen)),
+                        DeclBody::Enum { variants, .. } => variants.iter().flat_map(|v| v.record.fields.iter()).any(|f| go(&f.ty, p, seen)),
+                    }
+                }
+                _ => false,
+            }
+        }
+        go(self, p, &mut Vec::new())
+    }
     pub fn opt(t: Ty) -> Ty {
         Ty::Option(Arc::new(t))
     }
